@@ -263,7 +263,37 @@ def handleReq (inc : Bool) : List String → String
     | _, _, _, _, _, _, _, _, _ => "bad-op"
   | _ => "bad-op"
 
+/-! `seq <server> <proto> <reqs> <tbl>` — 1-4 requests over one real connection to one of twelve running servers
+(harness/internal/c10/seq.go): index = 4*t + 2*h + s with trusted_proxies none | 127.0.0.0/8 | 10.0.0.0/8,
+client_ip_headers default | [X-Real-IP, X-Forwarded-For], strict 0 | 1.  The peer is 127.0.0.1. -/
+
+def seqCIH : List Bytes :=
+  [[88, 45, 82, 101, 97, 108, 45, 73, 80], kXFF]   -- X-Real-IP, X-Forwarded-For
+
+def handleSeq : List String → String
+  | [server, proto, reqsF, tbl] =>
+    if proto != "1" && proto != "2" then "bad-op" else
+    match server.toNat?, (reqsF.splitOn "|").mapM parseHdrs with
+    | some idx, some reqs =>
+      if idx > 11 || server.length > 2 || reqs.length > 4 then "bad-op" else
+      let t := idx / 4
+      match parseTable (if t = 0 then 0 else 1) 1 tbl with
+      | none => "bad-op"
+      | some table =>
+        let cfg : Cfg PIdx :=
+          { srvTrusted := if t = 0 then none else some [⟨0, 0⟩],
+            clientIPHeaders := if (idx / 2) % 2 = 0 then none else some seqCIH,
+            strict := idx % 2, handlerTrusted := [], omitXFF := false, omitXFP := false, omitXFH := false }
+        let c : Conn := ⟨[49, 50, 55, 46, 48, 46, 48, 46, 49, 58, 49], false, [], false⟩     -- 127.0.0.1:1
+        let mr : List (MRange PIdx) := [⟨⟨1, 0⟩, []⟩]                                        -- client_ip 6.6.6.0/24
+        " | ".intercalate ((serveConnection (tableNet table) cfg c reqs).map fun o =>
+          Hex.encode o.clientIP ++ "/" ++ (if o.trusted then "1" else "0") ++ "/" ++
+            (if matchAddress (tableNet table) mr o.clientIP then "1" else "0"))
+    | _, _ => "bad-op"
+  | _ => "bad-op"
+
 def handle : List String → String
+  | "seq" :: rest => handleSeq rest
   | "cf" :: rest => handleCF rest
   | "pp" :: rest => handlePP rest
   | "req" :: rest => handleReq false rest
